@@ -60,6 +60,11 @@ def scale_cases(root):
     add("components-3000", {"main.xsd": head.format(x='xmlns:tns="urn:scale:many"', u="urn:scale:many") + "".join(ct.format(n=f"T{i}") for i in range(3000)) + "</xs:schema>\n"}, "main.xsd")
     enum = "".join(f'<xs:enumeration value="v{i}"/>' for i in range(5000))
     add("enumeration-5000", {"main.xsd": head.format(x='xmlns:tns="urn:scale:enum"', u="urn:scale:enum") + f'<xs:simpleType name="E"><xs:restriction base="xs:string">{enum}</xs:restriction></xs:simpleType></xs:schema>\n'}, "main.xsd")
+    # a DOCTYPE with an internal entity referred to tens of thousands of times in one text node (expansion must not be quadratic;
+    # rejecting the DTD outright is an acceptable answer)
+    ent = '<?xml version="1.0"?>\n<!DOCTYPE xs:schema [ <!ENTITY e "0123456789abcdef0123456789abcdef"> ]>\n'
+    add("doctype-entity-references-40000", {"main.xsd": ent + head.format(x='xmlns:tns="urn:scale:dtd"', u="urn:scale:dtd") + '<xs:annotation><xs:documentation>' + "&e;" * 40000
+        + "</xs:documentation></xs:annotation>" + ct.format(n="T") + "</xs:schema>\n"}, "main.xsd")
     add("name-20000-chars", {"main.xsd": head.format(x='xmlns:tns="urn:scale:name"', u="urn:scale:name") + ct.format(n="N" + "a" * 20000) + "</xs:schema>\n"}, "main.xsd")
     return out
 
